@@ -380,6 +380,30 @@ theorem asm_single_active_op (a : ASM) (op : AsmOp) (g : GenStep) :
     (op.isSet = true → 1 ≤ a.activeOps → (a.step op g).2 = .assertionError) :=
   asm_step_spec a op g
 
+/-- Callbacks run with an idle machine: every transition that invokes outConnectEvent /
+    outCloseEvent / outReadEvent / outWriteEvent (the callback is the last statement of `_do*Op`,
+    so the state returned by the model is the state at callback entry — tied by the
+    correspondence, where the real subclass records its state inside each callback) does so with
+    NO operation slot occupied and `result = None`; so a callback may start the next operation
+    (`setWriteOp` / `setCloseOp` from inside `outReadEvent`, ...) and `_checkAssert(0)` passes. -/
+theorem asm_callback_entry_idle (a : ASM) (op : AsmOp) (g : GenStep) (evs : List AsmEv)
+    (h : (a.step op g).2 = .ok evs) (hne : evs ≠ []) :
+    (a.step op g).1.activeOps = 0 ∧ (a.step op g).1.result = none ∧
+    (∀ g', (((a.step op g).1.step .setWrite g').2 ≠ .assertionError) ∧
+           (((a.step op g).1.step .setClose g').2 ≠ .assertionError)) := by
+  have ⟨h1, h2⟩ := asm_callback_spec a op g evs h hne
+  refine ⟨h1, h2, ?_⟩
+  intro g'
+  generalize (a.step op g).1 = b at h1 h2
+  obtain ⟨hh, c, r, w, res⟩ := b
+  simp only at h2
+  subst h2
+  cases hh <;> cases c <;> cases r <;> cases w <;> simp [ASM.activeOps] at h1
+  cases g' <;> simp [ASM.step, ASM.setWriteOp, ASM.setCloseOp, ASM.guard, ASM.checkAssert, ASM.activeOps,
+    ASM.doWriteOp, ASM.doCloseOp]
+
+example : (({ reader := true, result := some 0 } : ASM).step .inRead (.yld 7)) = (ASM.clear, .ok [.outRead]) := by decide
+
 /-- over whole histories: from the initial state, after any sequence of transitions with
     protocol-obeying generators, `_checkAssert()` holds -/
 theorem asm_invariant_all_histories (steps : List (AsmOp × GenStep)) (hp : ∀ x ∈ steps, x.2.proto) :
